@@ -14,7 +14,7 @@ ANCHORS = ['numdifftools.extrapolation:EpsAlg.__call__', 'numdifftools.extrapola
            'numdifftools.extrapolation:Dea._update_res3la']
 MIN_COUNTERS = dict(quick={'epsalg_entries_asserted': 2700, 'epsalg_complex_entries_asserted': 600, 'epsalg_recovery_asserted': 300,
                            'dea_calls_total_asserted': 50000, 'dea_floor_asserted': 50000,
-                           'dea_first_three_asserted': 1500, 'dea_table_membership_asserted': 3000, 'dea_table_membership_after_guards_or_cap_asserted': 3000, 'dea_branch:table_capped_at_limexp': 100, 'dea_finite_for_three_terms_near_top_of_range_asserted': 150,
+                           'dea_first_three_asserted': 1500, 'dea_table_membership_asserted': 3000, 'dea_table_membership_after_guards_or_cap_asserted': 3000, 'dea_branch:table_capped_at_limexp': 100, 'dea_finite_for_three_terms_near_top_of_range_asserted': 150, 'dea_interleaved_instances_compared': 300,
                            'dea_branch:all_converged': 100, 'dea_branch:partial_convergence_shrinks_table': 100},
                     thorough={'epsalg_entries_asserted': 100000, 'dea_calls_total_asserted': 2000000})
 RULE = ('Two further families: extreme (subnormal terms, units of 1e+-20..140, values up to 1e100) and integers (terms as Python / numpy integers). ' 
@@ -539,6 +539,31 @@ def run_case(case, ctx):
                                        n_state_after=int(dea._n)),
                            estimate_came_from_dea_routine=bool(_hist['dea_called']))
                 return
+    if case['seed'] % 4 == 1 and N >= 3:
+        # two more instances of the same table size alive at the same time, fed alternately (this sequence and its mirror image):
+        # each is a function of its own terms only - the same results as the instance that was fed alone
+        def _hx(p_):
+            return [float(v).hex() for v in p_]
+        other = [seq[0] + seq[-1] - v for v in seq][::-1]
+        other = [v if math.isfinite(v) else 0.0 for v in other]
+        try:
+            d1, d2 = Dea(limexp), Dea(limexp)
+            got1, got2 = [], []
+            for s1, s2 in zip(given, other):
+                got1.append(_hx(d1(s1)))
+                got2.append(_hx(d2(s2)))
+            d3 = Dea(limexp)
+            ref2 = [_hx(d3(s2)) for s2 in other]
+        except Exception as exc:
+            ctx.reject('dea_raised', observed=repr(exc)[:200], detail=dict(limexp=limexp, interleaved=True), exc_type=type(exc).__name__)
+            return
+        ctx.count('dea_interleaved_instances_compared')
+        ref1 = [_hx(o) for o in outs]
+        if got1 != ref1 or got2 != ref2:
+            k_ = next(i_ for i_ in range(N) if got1[i_] != ref1[i_] or got2[i_] != ref2[i_])
+            ctx.reject('dea_result_depends_on_another_live_instance', observed=[got1[k_], got2[k_]], expected=[ref1[k_], ref2[k_]],
+                       detail=dict(at_term=k_ + 1, limexp=limexp, seq=seq[:k_ + 1]))
+            return
     # first three terms
     if N >= 1 and outs[0][0] != seq[0]:
         ctx.reject('dea_first_term', observed=outs[0][0], expected=seq[0])
